@@ -2,7 +2,7 @@
 mirror of the TLA+ records (AyTree.tla)."""
 import sys
 
-from sdoc import atom_of_py, key_of_py, NOVAL
+from sdoc import atom_of_py, key_of_py, skey, NOVAL
 
 
 def _tri(v):
@@ -51,6 +51,8 @@ def project(node, views=False):
         if k in ("call", "bind"):
             f = node._func
             out["fn"] = str(f) if isinstance(f, str) else getattr(f, "__module__", "?") + "." + getattr(f, "__name__", "?")
+            if isinstance(f, str) and not _importable(str(f)):
+                out["ref"] = [skey("?")]        # marker NoImport (AyMerge.tla): the target name cannot be imported
         if k == "path":
             out["fn"] = str(node._ref_point) if getattr(node, "_ref_point", None) is not None else ""
     elif k == "scalar":
@@ -59,7 +61,23 @@ def project(node, views=False):
         out["ref"] = path_keys(str(node))
     elif k in ("eval", "fstr", "import"):
         out["v"] = atom_of_py(str(node))
+        if k == "eval" and str(node).isidentifier():
+            out["ref"] = [skey(str(node))]      # convention (AyEval.tla): code that is one bare name refers to that top-level key
     return out
+
+
+_IMPORTABLE = {}
+
+
+def _importable(name):
+    if name not in _IMPORTABLE:
+        from awesomeyaml.utils import import_name
+        try:
+            import_name(name)
+            _IMPORTABLE[name] = True
+        except Exception:  # noqa
+            _IMPORTABLE[name] = False
+    return _IMPORTABLE[name]
 
 
 def _native_key(name):
